@@ -1,4 +1,5 @@
 import OpusProofs.DecSkelApi
+import OpusProofs.DecSkelMs
 /-
   Property C01 — "Decoding is total and memory-safe for arbitrary packets and call histories".
 
@@ -244,5 +245,27 @@ theorem plc_chunk_recursion_depth (o : Oracle) (i1 i2 : Ptr → Int → Run → 
   nullFrameGen_inner_irrel o i1 i2 pcm n r hn
 
 example : ∀ st, init 48000 1 = some st → (960 : Int) ≤ F20 st := by intro st h; cases h; decide
+
+/-- Multistream (P1): `opus_multistream_decode_native` with its per-stream `opus_decode_native` calls
+    as contract-bound oracles — each returns a documented error or `0 < n ≤` the clamped
+    `frame_size` (what `decodeNative_ret` proves of the single-stream skeleton) and reports the
+    `packet_offset` the validation pass computed for its stream.  Then, for every packet, `len`,
+    `frame_size` and stream count, the result is `OPUS_BAD_ARG`, `OPUS_BUFFER_TOO_SMALL`,
+    `OPUS_INVALID_PACKET` or `0 < n ≤ frame_size`: the `OPUS_INTERNAL_ERROR` return of
+    opus_multistream_decoder.c:247-251 is unreachable after a successful
+    `opus_multistream_packet_validate`, and no stream is ever handed `len ≤ 0` with a packet. -/
+theorem msDecode_ret (no : NativeOracle) (Fs : Int) (hFs : FsOk Fs) (nb : Nat) (bs : Bytes) (hb : BytesOk bs)
+    (len frame_size : Int) (hlen : len ≤ bs.length)
+    (hno : MsOracleOk no nb (msOffs nb (bs.take len.toNat)) (min frame_size (Fs / 25 * 3))) :
+    RetOk frame_size (msDecode no Fs nb bs len frame_size).1 :=
+  msDecode_retOk no Fs nb bs hb len frame_size hlen hno (by unfold FsOk at hFs; omega)
+
+example : MsOracleOk (fun _ => (960, 4)) 1 (msOffs 1 ([120, 1, 2, 3].take (4 : Int).toNat)) (min 960 (48000 / 25 * 3)) :=
+  { ret := fun s hs => by
+      have : s = 0 := by omega
+      subst this; right; right; right; decide
+    po := fun s hs => by
+      have : s = 0 := by omega
+      subst this; decide }
 
 end OpusProps.C01
